@@ -453,6 +453,10 @@ def random_config(decl, rng: random.Random) -> Config:
 
 
 def random_cases(ids: IdGen, tier: str, seed: int):
+    import os
+    if os.environ.get("VERIF_NO_RANDOM"):
+        # self-assessment only (tools): is a seeded change caught by the fixed part of the corpus alone?
+        return []
     rng = random.Random(seed * 7919 + 17)
     n = 192 if tier == "quick" else 3000
     cases = []
@@ -612,7 +616,8 @@ def cfg_corpus(tier: str, seed: int):
             without = [f] + (["range"] if f == "iter" else [])
             add(d, legalize(cfg_all(t, without=without), d), "all_but_one", decorate_p=0.3)
         # random subsets with parameters
-        for _ in range(15 if tier == "quick" else 300):
+        import os
+        for _ in range(0 if os.environ.get("VERIF_NO_RANDOM") else (15 if tier == "quick" else 300)):
             add(d, random_config(d, rng), "random", decorate_p=0.6)
         # adversarial custom names: every item takes the default name of another one
         swapped = {"MIN": "MAX", "MAX": "MIN", "next": "next_back", "next_back": "next", "as_str": "into", "into": "as_str",
@@ -834,7 +839,8 @@ def dom_corpus(tier: str, seed: int):
             vs = list(range(rlo, rhi + 1))
             add(shapes.build_decl(r, vs, "dom_whole_type", "implicit", "first", rng), {"feat": ["size", "limit"]}, modes_i=ri)
         # 6. random in-domain declarations with mixed spellings
-        for _ in range(3 if tier == "quick" else 60):
+        import os
+        for _ in range(0 if os.environ.get("VERIF_NO_RANDOM") else (3 if tier == "quick" else 60)):
             d = shapes.random_decl(r, rng, max_n=16)
             add(d, {"feat": ["random"]}, modes_i=ri)
     # sizes beyond the small ones
